@@ -187,6 +187,29 @@ func c12(e *Env) {
 		}
 		w.RunUntil(func() bool { return false }, time.Second)
 	}
+	// some runs: the application has been running for hours since it prepared its statements
+	// (drivers prepare once and execute for ever), and some client prepares one more statement just
+	// before the executions that are judged: what the proxy knows about a prepared statement does
+	// not wear off
+	if c.Choose("hours-since-prepare", 16) == 15 {
+		d := []time.Duration{90 * time.Minute, 5 * time.Hour}[c.Choose("hours", 2)]
+		w.RunUntil(func() bool { return false }, d)
+		if w.Stopped() {
+			return
+		}
+		for _, cl := range f.clients {
+			if cl.Connected() {
+				tok := w.NewToken()
+				r := cl.Send("prepare", tok, &message.Prepare{Query: "SELECT v FROM ks.t_" + tok + " WHERE k = ?"}, nil)
+				w.RunUntil(func() bool { return len(r.Replies) > 0 }, time.Minute)
+				break
+			}
+		}
+		if w.Stopped() {
+			return
+		}
+		e.Res.Stats["probe.c12.executions_hours_after_prepare"]++
+	}
 	type rec struct {
 		req *world.ClientReq
 		g   world.GenReq
